@@ -63,8 +63,12 @@ func runC01(c *core.Ctx) {
 	c.Rule("R1.8", "in the direct handler the error returned on a reply's error-status edge is the decoded status, and a not-found status on a get becomes Miss:true, never a hit", 4)
 	c.Rule("R1.9", "reply tables: text storage commands answer STORED, delete DELETED, touch TOUCHED, get ends with END; negative answers use NOT_FOUND/NOT_STORED/EXISTS and never a success string; binary replies carry the opcode of their command", 20)
 
+	c.Rule("R1.10", "an L1 answer that only says 'L1 holds no copy' (the contract's benign statuses) after L2 applied the command still ends in the success reply: tier placement must not decide a command's outcome", 18)
+	c.Rule("R1.11", "wherever a multi-key get request is rebuilt, Keys, Opaques and Quiet have one origin (same request, accumulated together, or same index), so they keep describing the same keys position by position", 4)
+	checkBenignSucceeds(c, "R1.10")
+	checkParallelSlices(c, "R1.11")
 	runR11(c)
-	runR12(c)
+	runR12(c, "R1.2", inScopeCtors)
 	runR13(c)
 	runR15(c)
 	runR16(c)
@@ -95,18 +99,18 @@ func runR11(c *core.Ctx) {
 	}
 }
 
-func runR12(c *core.Ctx) {
-	for _, ctor := range inScopeCtors {
+func runR12(c *core.Ctx, rule string, ctors []string) {
+	for _, ctor := range ctors {
 		role, err := resolveOrca(c, ctor)
 		if err != nil {
-			c.Undecided("R1.2", "orcas."+ctor, "-", err.Error())
+			c.Undecided(rule, "orcas."+ctor, "-", err.Error())
 			continue
 		}
 		for m, want := range contract[ctor] {
 			fn := c.P.Method(role.Impl, m)
 			key := core.FuncName(fn) + "#handler-calls"
 			if fn == nil || len(fn.Blocks) == 0 {
-				c.Undecided("R1.2", "orcas."+ctor+"."+m, "-", "method not found")
+				c.Undecided(rule, "orcas."+ctor+"."+m, "-", "method not found")
 				continue
 			}
 			got := map[string]bool{}
@@ -122,12 +126,12 @@ func runR12(c *core.Ctx) {
 			sort.Strings(gl)
 			w := append([]string{}, want...)
 			sort.Strings(w)
-			c.Check(strings.Join(gl, ",") == strings.Join(w, ","), "R1.2", key, c.P.Pos(fn.Pos()), "calls {"+strings.Join(gl, ", ")+"}",
+			c.Check(strings.Join(gl, ",") == strings.Join(w, ","), rule, key, c.P.Pos(fn.Pos()), "calls {"+strings.Join(gl, ", ")+"}",
 				fmt.Sprintf("the method calls {%s} where the orchestration contract says {%s}", strings.Join(gl, ", "), strings.Join(w, ", ")))
 		}
 	}
 	// ordering clause: L1 changed only after L2 succeeded
-	checkL2First(c, "R1.2")
+	checkL2First(c, rule)
 }
 
 // failure edges of a call's error result
@@ -197,7 +201,7 @@ func runR13(c *core.Ctx) {
 				benign := map[string]bool{}
 				compensated := false
 				if w.Tier == "l1" && ctor != "L1Only" {
-					for s := range benignL1[w.Method] {
+					for s := range benignFor(ctor, m, w.Method) {
 						benign[s] = true
 					}
 					if (w.Method == "Set") || (ctor == "L1L2Batch" && m == "Set" && w.Method == "Replace") {
